@@ -475,12 +475,76 @@ fn scion_udp(src: [u8; 4], dst: [u8; 4], sport: u16, dport: u16, pt: u8, payload
     b
 }
 
+// ---- control plane in front of the registry (composition with C10: lifetime = exp - now) ----
+struct NoUnderlays;
+impl snap_control::model::UnderlayDiscovery for NoUnderlays {
+    fn list_snap_underlays(&self) -> Vec<snap_control::model::SnapUnderlay> {
+        vec![]
+    }
+    fn list_udp_underlays(&self) -> Vec<snap_control::model::UdpUnderlay> {
+        vec![]
+    }
+}
+struct NoSegments;
+#[async_trait::async_trait]
+impl endhost_api_models::SegmentsDiscovery for NoSegments {
+    async fn list_segments(
+        &self,
+        _src: sciparse::identifier::isd_asn::IsdAsn,
+        _dst: sciparse::identifier::isd_asn::IsdAsn,
+        _page_size: i32,
+        _page_token: String,
+    ) -> Result<sciparse::segment::SegmentsPage, endhost_api_models::SegmentsError> {
+        Err(endhost_api_models::SegmentsError::InternalError("none".into()))
+    }
+}
+struct NoResolver;
+impl snap_control::api::crpc::model::SnapDataPlaneResolver for NoResolver {
+    fn get_data_plane_address(
+        &self,
+        _ip: std::net::IpAddr,
+    ) -> Result<snap_control::api::crpc::model::SnapDataPlane, (axum::http::StatusCode, anyhow::Error)> {
+        Err((axum::http::StatusCode::NOT_FOUND, anyhow::anyhow!("none")))
+    }
+}
+
+/// Register `identity` through the real control-plane router with a freshly signed v0 SNAP token
+/// (token key = `jti`) that expires `exp_in` seconds from now.  Returns the HTTP status.
+async fn register_via_control_plane(router: &axum::Router, sk: &ed25519_dalek::SigningKey, identity: Identity, jti: &str, exp_in: u64) -> u16 {
+    use base64::Engine;
+    use ed25519_dalek::Signer;
+    use prost::Message;
+    use tower::ServiceExt;
+    let b64 = base64::engine::general_purpose::URL_SAFE_NO_PAD;
+    let now = std::time::SystemTime::now().duration_since(std::time::UNIX_EPOCH).unwrap().as_secs();
+    let h = b64.encode(br#"{"typ":"JWT","alg":"EdDSA"}"#);
+    let p = b64.encode(format!(r#"{{"pssid":"123e4567-e89b-12d3-a456-426614174000","exp":{},"jti":"{jti}"}}"#, now + exp_in));
+    let msg = format!("{h}.{p}");
+    let tok = format!("{msg}.{}", b64.encode(sk.sign(msg.as_bytes()).to_bytes()));
+    let body = snap_control::proto::anapaya::snap::v1::RegisterSnapTunIdentityRequest { initiator_static_x25519: identity.to_vec(), psk_share: vec![0u8; 32] }
+        .encode_to_vec();
+    let mut req = axum::http::Request::builder()
+        .method("POST")
+        .uri("/anapaya.snap.v1.SnapControl/RegisterSnapTunIdentity")
+        .header("content-type", "application/proto")
+        .header("authorization", format!("Bearer {tok}"))
+        .body(axum::body::Body::from(body))
+        .unwrap();
+    req.extensions_mut().insert(axum::extract::ConnectInfo(SocketAddr::from(([127, 0, 0, 1], 4242))));
+    match router.clone().oneshot(req).await {
+        Ok(r) => r.status().as_u16(),
+        Err(_) => 0,
+    }
+}
+
 fn gateway(outp: &str) {
     use snap_dataplane::tunnel_gateway::{
         NoopTunnelGatewayObserver, dispatcher::TunnelGatewayDispatcher, gateway::TunnelGateway, metrics::TunnelGatewayDispatcherMetrics,
     };
     use snap_dataplane::dispatcher::Dispatcher as _;
-    const LIFE: u64 = 8; // registration lifetime in seconds; observations keep >= 5 s from the expiry instant
+    // the tokens expire LIFE s after issue; the registration lifetime granted by the control plane is exp - now,
+    // i.e. in (LIFE-1, LIFE]; observations keep >= 5 s from both ends of that interval
+    const LIFE: u64 = 12;
     let rt = tokio::runtime::Builder::new_multi_thread().worker_threads(2).enable_all().build().expect("runtime");
     let result = rt.block_on(async move {
         let mut log: Vec<Value> = vec![];
@@ -582,8 +646,27 @@ fn gateway(outp: &str) {
             }};
         }
 
+        // the control plane: real router (auth middleware + RegisterSnapTunIdentity handler) in front of the real registry
+        let sk = ed25519_dalek::SigningKey::from_bytes(&[0x51; 32]);
+        let verifier = {
+            use ed25519_dalek::pkcs8::EncodePublicKey;
+            let pem = sk.verifying_key().to_public_key_pem(Default::default()).expect("pem");
+            snap_control::server::SnapTokenVerifier::new(jsonwebtoken::DecodingKey::from_ed_pem(pem.as_bytes()).expect("key"))
+        };
+        let router = snap_control::server::build_router(
+            NoUnderlays,
+            "http://127.0.0.1:1/".parse().unwrap(),
+            NoSegments,
+            NoResolver,
+            reg.clone(),
+            None,
+            verifier,
+            snap_control::server::metrics::Metrics::new(&scion_sdk_observability::metrics::registry::MetricsRegistry::new()),
+        )
+        .expect("router");
         let t0 = Instant::now();
-        reg.register(t0, "k1", id1, Duration::from_secs(LIFE));
+        let st = register_via_control_plane(&router, &sk, id1, "token-1", LIFE).await;
+        log.push(json!({"step": "register", "status": st}));
         // handshake over UDP
         let init = tunn.format_handshake_initiation(false).expect("init");
         let ib: Packet = init.into_bytes();
@@ -620,11 +703,13 @@ fn gateway(outp: &str) {
         outbound!("lapsed:outbound");
         // the identity registers again: traffic resumes on the existing WireGuard session
         let t1 = Instant::now();
-        reg.register(t1, "k1", id1, Duration::from_secs(LIFE));
+        let st = register_via_control_plane(&router, &sk, id1, "token-1", LIFE).await;
+        log.push(json!({"step": "reregister", "status": st}));
         through!("reregistered:good", good, 500);
         outbound!("reregistered:outbound");
         // superseded by another identity under the same token key
-        reg.register(Instant::now(), "k1", id2, Duration::from_secs(LIFE));
+        let st = register_via_control_plane(&router, &sk, id2, "token-1", LIFE).await;
+        log.push(json!({"step": "supersede", "status": st}));
         through!("superseded:good", good, 1200);
         outbound!("superseded:outbound");
         let late = t1.elapsed().as_secs_f64();
